@@ -6,7 +6,7 @@
 (* response with body FAIL is put into a client's mailbox only in a state in which every    *)
 (* backend has failed.  zfailok stays TRUE as long as that was so in every step; zfails and *)
 (* zoks count the FAIL / non-FAIL responses (witnesses against vacuity).                    *)
-EXTENDS proxy
+EXTENDS proxy, Integers
 
 VARIABLES zfailok, zfails, zoks
 zhvars == <<vars, zfailok, zfails, zoks>>
